@@ -52,3 +52,255 @@ example : softCode (1/2 : ℚ) 2 (1/4) = 3/2 := by
   simp only [softCode, absK, maxK]; norm_num
 
 end Scalar
+
+/-! ## abstract layer (real inner product space: covers every weighted / product space) -/
+section Abstract
+variable {E : Type} [NormedAddCommGroup E] [InnerProductSpace ℝ E]
+
+theorem C07.prox_minimises (C : Set E) (f : E → ℝ) (σ : ℝ) (x p : E)
+    (h : ProxVI C f σ x p) (z : E) (hz : z ∈ C) :
+    σ * f p + ‖p - x‖ ^ 2 / 2 + ‖z - p‖ ^ 2 / 2 ≤ σ * f z + ‖z - x‖ ^ 2 / 2 := by
+  have h1 := h.2 z hz
+  have e : z - x = (z - p) + (p - x) := by abel
+  have h2 : ‖z - x‖ ^ 2 = ‖z - p‖ ^ 2 + 2 * inner ℝ (z - p) (p - x) + ‖p - x‖ ^ 2 := by
+    rw [e]; exact norm_add_sq_real _ _
+  have h3 : inner ℝ (x - p) (z - p) = - inner ℝ (z - p) (p - x) := by
+    rw [real_inner_comm, ← inner_neg_right]; congr 1; abel
+  linarith
+
+theorem C07.prox_unique (C : Set E) (f : E → ℝ) (σ : ℝ) (x p q : E)
+    (h : ProxVI C f σ x p) (hq : q ∈ C)
+    (hmin : ∀ z ∈ C, σ * f q + ‖q - x‖ ^ 2 / 2 ≤ σ * f z + ‖z - x‖ ^ 2 / 2) : q = p := by
+  have h1 := C07.prox_minimises C f σ x p h q hq
+  have h2 := hmin p h.1
+  have : ‖q - p‖ ^ 2 ≤ 0 := by linarith
+  have : ‖q - p‖ = 0 := by nlinarith [norm_nonneg (q - p)]
+  exact sub_eq_zero.mp (norm_eq_zero.mp this)
+
+theorem C07.prox_firmly_nonexpansive (C : Set E) (f : E → ℝ) (σ : ℝ) (x y p q : E)
+    (hp : ProxVI C f σ x p) (hq : ProxVI C f σ y q) :
+    ‖p - q‖ ^ 2 ≤ inner ℝ (p - q) (x - y) := by
+  have h1 := hp.2 q hq.1
+  have h2 := hq.2 p hp.1
+  have e : inner ℝ (p - q) (x - y) - ‖p - q‖ ^ 2
+      = -(inner ℝ (x - p) (q - p) + inner ℝ (y - q) (p - q)) := by
+    rw [← real_inner_self_eq_norm_sq]
+    simp only [inner_sub_left, inner_sub_right, real_inner_comm]
+    ring
+  linarith
+
+theorem C07.indicator_prox_fixes_feasible (C : Set E) (σ : ℝ) (x p : E)
+    (h : ProxVI C (fun _ => 0) σ x p) (hx : x ∈ C) : p = x := by
+  have h1 := h.2 x hx
+  simp only [mul_zero, zero_add] at h1
+  rw [real_inner_self_eq_norm_sq] at h1
+  have : ‖x - p‖ = 0 := by nlinarith [norm_nonneg (x - p)]
+  exact (sub_eq_zero.mp (norm_eq_zero.mp this)).symm
+
+theorem C07.indicator_prox_idempotent (C : Set E) (σ : ℝ) (P : E → E)
+    (h : IsProx C (fun _ => 0) σ P) (x : E) : P x ∈ C ∧ P (P x) = P x :=
+  ⟨(h x).1, C07.indicator_prox_fixes_feasible C σ (P x) (P (P x)) (h (P x)) (h x).1⟩
+
+theorem C07.prox_translation (C : Set E) (f : E → ℝ) (P : ℝ → E → E) (y : E) (σ : ℝ)
+    (hP : IsProx C f σ (P σ)) :
+    IsProx {z | z - y ∈ C} (fun z => f (z - y)) σ (proxTranslation P y σ) := by
+  intro x
+  obtain ⟨h1, h2⟩ := hP (x - y)
+  refine ⟨by simpa [proxTranslation] using h1, fun z hz => ?_⟩
+  have := h2 (z - y) hz
+  simp only [proxTranslation, add_sub_cancel_left]
+  have e1 : x - (y + P σ (x - y)) = x - y - P σ (x - y) := by abel
+  have e2 : z - (y + P σ (x - y)) = z - y - P σ (x - y) := by abel
+  rw [e1, e2]; exact this
+
+theorem C07.prox_arg_scaling (C : Set E) (f : E → ℝ) (P : ℝ → E → E) (s σ : ℝ) (hs : s ≠ 0)
+    (hP : IsProx C f (σ * (s * s)) (P (σ * (s * s)))) :
+    IsProx {z | s • z ∈ C} (fun z => f (s • z)) σ (proxArgScaling P s σ) := by
+  intro x
+  obtain ⟨h1, h2⟩ := hP (s • x)
+  set q := P (σ * (s * s)) (s • x) with hq
+  have hsp : s • proxArgScaling P s σ x = q := by
+    simp only [proxArgScaling, smul_smul]
+    rw [mul_one_div_cancel hs, one_smul]
+  refine ⟨by simpa [hsp] using h1, fun z hz => ?_⟩
+  have h3 := h2 (s • z) hz
+  simp only [hsp]
+  have e : inner ℝ (s • x - q) (s • z - q)
+      = (s * s) * inner ℝ (x - proxArgScaling P s σ x) (z - proxArgScaling P s σ x) := by
+    rw [← hsp, ← smul_sub, ← smul_sub, inner_smul_left, inner_smul_right]
+    simp; ring
+  rw [e] at h3
+  have hss : 0 < s * s := mul_self_pos.mpr hs
+  have : (s * s) * (σ * f q + inner ℝ (x - proxArgScaling P s σ x) (z - proxArgScaling P s σ x))
+      ≤ (s * s) * (σ * f (s • z)) := by nlinarith
+  exact le_of_mul_le_mul_left this hss
+
+theorem C07.prox_left_scaling (C : Set E) (f : E → ℝ) (P : ℝ → E → E) (c σ : ℝ)
+    (hP : IsProx C f (σ * c) (P (σ * c))) :
+    IsProx C (fun z => c * f z) σ (proxLeftScale P c σ) := by
+  intro x
+  obtain ⟨h1, h2⟩ := hP x
+  refine ⟨h1, fun z hz => ?_⟩
+  have := h2 z hz
+  simp only [proxLeftScale]
+  nlinarith
+
+theorem C07.prox_quadratic_perturbation (C : Set E) (f : E → ℝ) (P : ℝ → E → E)
+    (rsqrt : ℝ → ℝ) (a σ : ℝ) (u : E) (ha : 0 ≤ a) (hσ : 0 < σ)
+    (hr : 0 < rsqrt (σ * (1 + 1) * a + 1) ∧
+      rsqrt (σ * (1 + 1) * a + 1) * rsqrt (σ * (1 + 1) * a + 1) * (σ * (1 + 1) * a + 1) = 1)
+    (hP : ∀ s, 0 < s → IsProx C f s (P s)) :
+    IsProx C (fun z => f z + a * ‖z‖ ^ 2 + inner ℝ z u) σ
+      (proxQuadPerturb rsqrt P a (some u) σ) := by
+  intro x
+  set c := rsqrt (σ * (1 + 1) * a + 1) with hc
+  obtain ⟨hc0, hc1⟩ := hr
+  have hcc : 0 < c * c := mul_pos hc0 hc0
+  have hcne : c ≠ 0 := ne_of_gt hc0
+  obtain ⟨h1, h2⟩ := hP (σ * (c * c)) (mul_pos hσ hcc) (c • (c • x - (σ * c) • u))
+  set q := P (σ * (c * c)) (c • (c • x - (σ * c) • u)) with hq
+  have hres : proxQuadPerturb rsqrt P a (some u) σ x = q := by
+    simp only [proxQuadPerturb, proxArgScaling, ← hc, smul_smul]
+    rw [mul_one_div_cancel hcne, one_smul]
+  rw [hres]
+  refine ⟨h1, fun z hz => ?_⟩
+  have h3 := h2 z hz
+  have e : inner ℝ (c • (c • x - (σ * c) • u) - q) (z - q)
+      = (c * c) * (inner ℝ x (z - q) - σ * inner ℝ u (z - q)) - inner ℝ q (z - q) := by
+    simp only [inner_sub_left, inner_smul_left, smul_sub, smul_smul]
+    simp; ring
+  rw [e] at h3
+  have hn : ‖z‖ ^ 2 = ‖q‖ ^ 2 + 2 * inner ℝ q (z - q) + ‖z - q‖ ^ 2 := by
+    have : z = q + (z - q) := by abel
+    conv_lhs => rw [this]
+    rw [norm_add_sq_real]
+  have hnn : 0 ≤ ‖z - q‖ ^ 2 := sq_nonneg _
+  have e2 : inner ℝ (x - q) (z - q) = inner ℝ x (z - q) - inner ℝ q (z - q) := inner_sub_left _ _ _
+  have e3 : inner ℝ z u - inner ℝ q u = inner ℝ u (z - q) := by
+    rw [inner_sub_right, real_inner_comm u z, real_inner_comm u q]
+  -- divide the inner inequality by c*c
+  have key : σ * f q + (inner ℝ x (z - q) - σ * inner ℝ u (z - q))
+      - (σ * (1 + 1) * a + 1) * inner ℝ q (z - q) ≤ σ * f z := by
+    have h4 : (c * c) * (σ * f q + (inner ℝ x (z - q) - σ * inner ℝ u (z - q))
+        - (σ * (1 + 1) * a + 1) * inner ℝ q (z - q)) ≤ (c * c) * (σ * f z) := by
+      have : c * c * ((σ * (1 + 1) * a + 1) * inner ℝ q (z - q)) = inner ℝ q (z - q) := by
+        rw [← mul_assoc, hc1, one_mul]
+      nlinarith
+    exact le_of_mul_le_mul_left h4 hcc
+  have : 0 ≤ σ * a * ‖z - q‖ ^ 2 := by positivity
+  have e3' : σ * inner ℝ z u - σ * inner ℝ q u = σ * inner ℝ u (z - q) := by
+    rw [← e3]; ring
+  show σ * (f q + a * ‖q‖ ^ 2 + inner ℝ q u) + inner ℝ (x - q) (z - q)
+      ≤ σ * (f z + a * ‖z‖ ^ 2 + inner ℝ z u)
+  rw [hn, e2]
+  linarith
+
+theorem C07.prox_moreau (C : Set E) (f : E → ℝ) (D : Set E) (fs : E → ℝ) (P : ℝ → E → E)
+    (σ : ℝ) (hσ : 0 < σ) (hconj : IsConjPair C f D fs)
+    (hP : IsProx C f (1 / σ) (P (1 / σ))) :
+    IsProx D fs σ (proxConvexConj P σ) := by
+  intro x
+  obtain ⟨h1, h2⟩ := hP ((1 / σ) • x)
+  set p := P (1 / σ) ((1 / σ) • x) with hp
+  have hq : proxConvexConj P σ x = x - σ • p := rfl
+  rw [hq]
+  -- g := x - σ p is a subgradient of f at p
+  have hsub : ∀ z ∈ C, f p + inner ℝ (x - σ • p) (z - p) ≤ f z := by
+    intro z hz
+    have h3 := h2 z hz
+    have e : inner ℝ ((1 / σ) • x - p) (z - p) = (1 / σ) * inner ℝ (x - σ • p) (z - p) := by
+      have : (1 / σ) • x - p = (1 / σ) • (x - σ • p) := by
+        simp [smul_sub, smul_smul, ne_of_gt hσ]
+      rw [this, real_inner_smul_left]
+    rw [e] at h3
+    have : (1 / σ) * (f p + inner ℝ (x - σ • p) (z - p)) ≤ (1 / σ) * f z := by linarith
+    exact le_of_mul_le_mul_left this (by positivity)
+  obtain ⟨hgD, hfy⟩ := hconj.2 p h1 (x - σ • p) hsub
+  refine ⟨hgD, fun y hy => ?_⟩
+  have hy' := hconj.1 p h1 y hy
+  have e1 : x - (x - σ • p) = σ • p := by abel
+  rw [e1, inner_smul_left]
+  simp only [conj_trivial]
+  have e2 : inner ℝ p (y - (x - σ • p)) = inner ℝ p y - inner ℝ p (x - σ • p) := inner_sub_right _ _ _
+  rw [e2]
+  have : σ * (f p + fs (x - σ • p)) = σ * inner ℝ p (x - σ • p) := by rw [hfy]
+  nlinarith
+
+/-- `ProximalL2._call` with `eps = 0` is the proximal of `λ‖· − g‖`. -/
+theorem C07.l2_prox (lam σ : ℝ) (g : E) (hl : 0 ≤ lam) (hσ : 0 < σ) :
+    IsProx Set.univ (fun z => lam * ‖z - g‖) σ
+      (proxL2 (fun v : E => ‖v‖) 0 lam (some g) σ) := by
+  intro x
+  refine ⟨trivial, fun z _ => ?_⟩
+  simp only [proxL2, add_zero, mul_one]
+  have cs : inner ℝ (x - g) (z - g) ≤ ‖x - g‖ * ‖z - g‖ := real_inner_le_norm _ _
+  have hz0 : 0 ≤ ‖z - g‖ := norm_nonneg _
+  split_ifs with h0 h1
+  · -- shrink
+    set t := ‖x - g‖ with ht
+    set st := σ * lam / t with hst
+    have hstt : st * t = σ * lam := by rw [hst]; field_simp
+    have hst0 : 0 ≤ st := by rw [hst]; positivity
+    have e1 : (1 - st) • x + st • g - g = (1 - st) • (x - g) := by
+      simp only [smul_sub, sub_smul, one_smul]; abel
+    have e2 : x - ((1 - st) • x + st • g) = st • (x - g) := by
+      simp only [smul_sub, sub_smul, one_smul]; abel
+    have e3 : z - ((1 - st) • x + st • g) = (z - g) - (1 - st) • (x - g) := by
+      simp only [smul_sub, sub_smul, one_smul]; abel
+    rw [e1, e2, e3, norm_smul, inner_smul_left, inner_sub_right, inner_smul_right,
+      real_inner_self_eq_norm_sq, ← ht]
+    simp only [conj_trivial, Real.norm_eq_abs]
+    rw [abs_of_nonneg (by linarith : 0 ≤ 1 - st)]
+    have h5 : st * inner ℝ (x - g) (z - g) ≤ σ * lam * ‖z - g‖ := by
+      calc st * inner ℝ (x - g) (z - g) ≤ st * (t * ‖z - g‖) :=
+            mul_le_mul_of_nonneg_left cs hst0
+        _ = (st * t) * ‖z - g‖ := by ring
+        _ = σ * lam * ‖z - g‖ := by rw [hstt]
+    have h6 : st * ((1 - st) * t ^ 2) = σ * lam * ((1 - st) * t) := by
+      rw [← hstt]; ring
+    nlinarith
+  · -- step ≥ 1: the result is g
+    have ht : 0 < ‖x - g‖ := h0
+    have h2 : ‖x - g‖ ≤ σ * lam := by
+      have := not_lt.mp h1
+      rwa [le_div_iff₀ ht, one_mul] at this
+    simp only [sub_self, norm_zero, mul_zero, zero_add]
+    calc inner ℝ (x - g) (z - g) ≤ ‖x - g‖ * ‖z - g‖ := cs
+      _ ≤ σ * lam * ‖z - g‖ := by gcongr
+      _ = σ * (lam * ‖z - g‖) := by ring
+  · -- x = g
+    have : ‖x - g‖ = 0 := le_antisymm (not_lt.mp h0) (norm_nonneg _)
+    have hx : x - g = 0 := norm_eq_zero.mp this
+    simp only [sub_self, norm_zero, mul_zero, zero_add, hx, inner_zero_left]
+    positivity
+
+theorem C07.l2_conj_pair (lam : ℝ) (hl : 0 ≤ lam) :
+    IsConjPair (Set.univ : Set E) (fun z => lam * ‖z‖) {y | ‖y‖ ≤ lam} (fun _ => 0) := by
+  constructor
+  · intro z _ y hy
+    have hy' : ‖y‖ ≤ lam := hy
+    calc inner ℝ z y ≤ ‖z‖ * ‖y‖ := real_inner_le_norm _ _
+      _ ≤ ‖z‖ * lam := by gcongr
+      _ = lam * ‖z‖ + 0 := by ring
+  · intro p _ g hg
+    have h0 := hg 0 trivial
+    have h2 := hg ((2 : ℝ) • p) trivial
+    have hpg := hg (p + g) trivial
+    beta_reduce at h0 h2 hpg ⊢
+    simp only [zero_sub, inner_neg_right, norm_zero, mul_zero] at h0
+    have e2 : (2 : ℝ) • p - p = p := by rw [two_smul]; abel
+    rw [e2, norm_smul] at h2
+    simp only [Real.norm_eq_abs, abs_two] at h2
+    have e3 : p + g - p = g := by abel
+    rw [e3, real_inner_self_eq_norm_sq] at hpg
+    have tri : ‖p + g‖ ≤ ‖p‖ + ‖g‖ := norm_add_le _ _
+    have hgn : 0 ≤ ‖g‖ := norm_nonneg _
+    refine ⟨?_, ?_⟩
+    · show ‖g‖ ≤ lam
+      by_contra hc
+      have hc' : lam < ‖g‖ := not_le.mp hc
+      have : lam * ‖p + g‖ ≤ lam * (‖p‖ + ‖g‖) := by gcongr
+      nlinarith
+    · rw [real_inner_comm] at h0 h2; linarith
+
+end Abstract
